@@ -448,10 +448,20 @@ class Filtered(Arr):
         super().__init__((count,), lambda k: src_fn(g(k)), kind)
 
 
+APPS: dict = {}  # decl name -> {key: argument tuple}: every application built on this path (instantiation triggers)
+
+
+def app(decl, *args):
+    """Apply an uninterpreted function and log the argument tuple."""
+    zargs = tuple(to_z3(a) for a in args)
+    APPS.setdefault(decl.name(), {})[tuple(a.get_id() for a in zargs)] = zargs
+    return decl(*zargs)
+
+
 def sym_array(name: str, shape, kind: str) -> Arr:
     sort = {"real": z3.RealSort(), "int": z3.IntSort(), "bool": z3.BoolSort()}[kind]
     f = z3.Function(name, *([z3.IntSort()] * len(shape)), sort)
-    a = Arr(shape, lambda *idx: f(*[to_z3(i) for i in idx]), kind, name=name)
+    a = Arr(shape, lambda *idx: app(f, *idx), kind, name=name)
     a.decl = f
     return a
 
